@@ -5,6 +5,7 @@
 -/
 import Minicbor.Lemmas.Accessors
 import Minicbor.Wire
+import Minicbor.Info
 
 namespace Minicbor.C04
 open Dec
@@ -172,5 +173,32 @@ theorem str_iter_indef (cs : List (Width × Bytes)) (rest : Bytes) (hv : (WItem.
     refine chunkLoop_text cs rest hv _ ?_
     omega
   · simp only [value, joinChunks_eq]
+
+
+/-! ### size introspection (`decode::info::Size`) -/
+
+/-- `Size::head` on the first byte of any definite head gives the head length … -/
+theorem size_head_sound (maj : Nat) (w : Width) (n : Nat) (hm : maj < 8) (h : w.fits n = true) :
+    Size.headLen (u8 (maj * 32 + w.ai n)) = .ok (headW maj w n).length := by
+  have hb := headByte_toNat maj w n hm h
+  have hai := Width.ai_le w n h
+  simp only [Size.headLen, hb, headW, List.length_cons, be_length]
+  have e1 : (maj * 32 + w.ai n) % 32 = w.ai n := by omega
+  rw [e1]
+  cases w <;> simp [Width.ai, Width.bytes, Width.fits] at * <;> omega
+
+/-- … and `Size::tail` on the head classifies the item and returns its length / count. -/
+theorem size_tail_sound (maj : Nat) (w : Width) (n : Nat) (hm : maj < 8) (h : w.fits n = true) :
+    Size.tail (headW maj w n) =
+      .ok (if maj = 2 ∨ maj = 3 then .bytes n else if maj = 4 ∨ maj = 5 then .items n else .head) := by
+  have hb := headByte_toNat maj w n hm h
+  have hai := Width.ai_le w n h
+  have hmaj : (maj * 32 + w.ai n) / 32 = maj := by omega
+  have hne := infoOf_head_ne31 maj w n hm h
+  have hu := unsigned_info_head maj w n [] hm h
+  simp only [List.append_nil] at hu
+  simp only [Size.tail, headW, hb, hmaj]
+  have : maj = 0 ∨ maj = 1 ∨ maj = 2 ∨ maj = 3 ∨ maj = 4 ∨ maj = 5 ∨ maj = 6 ∨ maj = 7 := by omega
+  rcases this with rfl | rfl | rfl | rfl | rfl | rfl | rfl | rfl <;> simp [hne, hu]
 
 end Minicbor.C04
